@@ -1573,6 +1573,13 @@ class Vector : public vec::VectorWithInplaceStorage<T, Alloc, SizeType, GrowingP
     return *this;
   }
 
+  // Not inherited from VectorImpl: assignment operators of a derived class hide those of its bases. Without it,
+  // 'v = {a, b}' would build a temporary Vector and move assign it, releasing the capacity of 'v'.
+  Vector &operator=(std::initializer_list<T> list) {
+    this->assign(list.begin(), list.end());
+    return *this;
+  }
+
   // Move assignment operator only defined here as it requires same N
   Vector &operator=(Vector &&o) noexcept(N == 0 || vec::is_shift_nothrow<T>::value) {
     if (AMC_LIKELY(this != &o)) {
